@@ -341,7 +341,10 @@ def correspondence(ctx, obs, max_cells_q, max_cells_i, max_goals):
         o = meta[cid]
         if o["kind"] == "pyth":
             mp = re.match(r"\((true|false), (.*)\)$", res.get(cid) or "")
-            if mp and mp.group(1) == "true":
+            if not mp:
+                unchecked_eval(ctx, "C09", cid)
+                continue
+            if mp.group(1) == "true":
                 ctx.cov["discharged"] += 1
                 continue
             ctx.case_failures.append({"case": cid})
@@ -352,8 +355,7 @@ def correspondence(ctx, obs, max_cells_q, max_cells_i, max_goals):
         m = re.match(r"\((true|false), (true|false), (true|false), (.*)\)$", res.get(cid) or "")
         sq_sym = o["cols"] == o["rows"] and o["xs"] == o["ys"] and o["gkind"] == "transpose"
         if not m:
-            ctx.case_failures.append({"case": cid})
-            ctx.violation("S4", f"model evaluation failed for case {cid}", {"kind": "model_eval"}, dict(arr_input(o), output=res.get(cid)), found_input=False)
+            unchecked_eval(ctx, "C09", cid)     # no output (time limit / crash): an unchecked obligation, not a disagreement
             continue
         if all(m.group(i) == "true" for i in (1, 2, 3)):
             ctx.cov["discharged"] += 1
@@ -364,14 +366,32 @@ def correspondence(ctx, obs, max_cells_q, max_cells_i, max_goals):
                       {"kind": "value", "family": o["family"]}, dict(arr_input(o), tau=0.0, model=m.group(4)), found_input=sq_sym and m.group(2) == "false")
     ires = run_interval_cases(ctx, "C09i", "From SpdVerif Require Import Model.FinSum Model.Hom.\n", goals, setup=ITAC,
                               shards=min(NCPU, max(1, len(goals))))
+    # a goal that coqc did not close is a model/implementation disagreement only when it got a verdict; goals without a verdict are
+    # retried and reported as unchecked obligations by vlib.  The concrete failing input, if any, comes from the S5 recomputation.
     for cid, ok in ires.items():
         if ok or cid not in gmeta:
             continue
         o, j = gmeta[cid]
-        sq_sym = o["cols"] == o["rows"] and o["xs"] == o["ys"] and o["gkind"] == "transpose"
         ctx.case_failures.append({"case": cid})
         ctx.violation("S4", f"real-valued model and hom_rate = {fl(o['singles'][j])!r} disagree beyond {TOLI} at tau={fl(o['taus'][j])!r} ({o['family']}, {o['cols']}x{o['rows']})",
-                      {"kind": "value", "family": o["family"]}, dict(arr_input(o), tau=fl(o["taus"][j]), rate=fl(o["singles"][j]), case=cid), found_input=sq_sym)
+                      {"kind": "value", "family": o["family"]}, dict(arr_input(o), tau=fl(o["taus"][j]), rate=fl(o["singles"][j]), case=cid), found_input=False)
+
+
+def unchecked_eval(ctx, name, cid):
+    """a vm_compute evaluation that printed no result: counted as an unchecked obligation (like vlib's no-verdict goals)"""
+    ctx.cov["unchecked_cases"] = ctx.cov.get("unchecked_cases", 0) + 1
+    tag = (f"Cases/{name}", "no-verdict")
+    for i, f in enumerate(ctx.proof_failures):
+        if (f[0], f[1]) == tag:
+            ctx.proof_failures[i] = (f[0], f[1], f[2] + f", {cid}")
+            return
+    ctx.proof_failures.append((tag[0], tag[1], f"model evaluation(s) without output from coqc (time limit): {cid}"))
+
+
+def unknown_failing(ctx):
+    """a concrete failing input that is NOT a known finding (a known finding firing on the same run must not stop the search)"""
+    fs = load_findings()
+    return any(v["found_input"] and match_finding(v, fs, ctx.prop) is None for v in ctx.violations)
 
 
 def run(ctx):
@@ -393,12 +413,12 @@ def run(ctx):
         correspondence(ctx, obs, 64 if quick else 144, 25 if quick else 36, 32 if quick else 96)
     else:
         ctx.note("correspondence skipped: Model/Hom.v did not compile")
-    if (not proved or ctx.case_failures) and not any(v["found_input"] for v in ctx.violations):
+    if (not proved or ctx.case_failures) and not unknown_failing(ctx):
         ctx.log("S5 deep search for a failing input (obligations broken or model/implementation disagree)")
         for k in range(3):
             obs2 = run_harness(ctx, binp, ["c09", ctx.seed + 7919 * (k + 1), 400, 12, 12, 20])
             oracle(ctx, obs2)
-            if any(v["found_input"] for v in ctx.violations):
+            if unknown_failing(ctx):
                 break
     ctx.cov["rule"] = ("array level: families random / symmetric / antisymmetric / hermitian / separable-with-linear-phase (square grid, identical dyadic "
                        "axes, second array = transpose) and independent / rectangular (second array unrelated, different norm, different axes) with dyadic "
